@@ -226,7 +226,9 @@ def run_readers(ctx):
             o, n = 0, min(L, 8)
         kw = {}
         if tape.chance(1, 3, "chunks") and n > 1:
-            kw["chunks"] = (n,) + tuple(max(1, s // 2) for s in r1.sample_shape)
+            # explicit chunks for the lazy read, half of the time also along time
+            tsplit = max(1, n // 2) if tape.chance(1, 2, "chunks.time") else n
+            kw["chunks"] = (tsplit,) + tuple(max(1, s // 2) for s in r1.sample_shape)
         zn, bn = r1.read(o, n), r2.read(o, n)
         SENT["n"] = 0
         trip = []
